@@ -381,13 +381,20 @@ fn is_not_super_type_of(sup: Option<&Ty>, sub: Option<&Ty>) -> bool {
 
 fn maybe_type_intersection(a: Option<Ty>, b: Option<Ty>) -> Option<Ty> {
     match (a, b) {
-        (Some(a), Some(b)) => Some(type_intersection(a, b)),
+        (Some(a), Some(b)) => try_type_intersection(a, b),
         (x, None) | (None, x) => x,
     }
 }
 
 pub fn type_intersection(a: Ty, b: Ty) -> Ty {
-    match (a.kind, b.kind) {
+    let fallback = a.clone();
+    try_type_intersection(a, b).unwrap_or(fallback)
+}
+
+/// Returns None when the two types have nothing in common that can be
+/// expressed (for example int and text): the type is then not known.
+fn try_type_intersection(a: Ty, b: Ty) -> Option<Ty> {
+    Some(match (a.kind, b.kind) {
         (a_kind, b_kind) if a_kind == b_kind => Ty { kind: a_kind, ..a },
 
         // tuple
@@ -397,11 +404,12 @@ pub fn type_intersection(a: Ty, b: Ty) -> Ty {
 
         // array
         (TyKind::Array(Some(a)), TyKind::Array(Some(b))) => {
-            Ty::new(TyKind::Array(Some(Box::new(type_intersection(*a, *b)))))
+            Ty::new(TyKind::Array(try_type_intersection(*a, *b).map(Box::new)))
         }
+        (TyKind::Array(a), TyKind::Array(b)) => Ty::new(TyKind::Array(a.or(b))),
 
-        _ => todo!(),
-    }
+        _ => return None,
+    })
 }
 
 fn type_intersection_of_tuples(a: Vec<TyTupleField>, b: Vec<TyTupleField>) -> Ty {
